@@ -348,7 +348,7 @@ theorem sok_step (cfg : Cfg) (ar : Arith) (now : Int) (s : State) (req : Req) (h
       simp only [Model.stepCore, Model.incStep]
       split
       · exact hs
-      · exact sok_settleTouch cfg s _ hs (dok_incCore cfg ar now _ ty k b c i1 i2 hsum)
+      · exact sok_settleTouch cfg s _ hs (dok_incCore cfg _ now _ ty k b c i1 i2 hsum)
     | push pairs =>
       simp only [Model.stepCore]
       exact sok_settleTouch cfg s _ hs (dok_pushLoop cfg pairs _ hsum)
